@@ -246,6 +246,12 @@ func (n *Normalizer) stmts(ss []Stmt, ret Term, e *env, blk *Block) Term {
 		switch x := s.(type) {
 		case *Let:
 			v := n.term(x.Val, e)
+			// a helper with effects AND a result that was inlined here: its effects join this sequence, the
+			// variable(s) are bound to its result
+			if sq, ok := v.(*Seq); ok && sq.Ret != nil && len(sq.Effs) > 0 && n.inlinedCall(x.Val) {
+				effs = append(effs, sq.Effs...)
+				v = sq.Ret
+			}
 			switch x.Mode {
 			case LetSingle:
 				if len(x.Vars) == 1 && x.Vars[0] != nil && (n.loopVars[x.Vars[0]] || (n.KeepShared && n.uses[x.Vars[0]] > 1 && (hasApp(v) || isMutableZero(v)))) {
